@@ -157,7 +157,11 @@ def resolve_real(supvisors, path, qapp, qproc, plain):
     from supvisors.sparser import Parser
     from supvisors.process import ProcessRules
     from supvisors.application import ApplicationRules
+    import io
+    import supvisors.sparser as sparser_mod
     saved = supvisors.options.rules_files
+    saved_err = sparser_mod.stderr
+    sparser_mod.stderr = io.StringIO()        # (the XSD error log of refused files is printed there)
     supvisors.options.rules_files = [path]
     try:
         try:
@@ -188,6 +192,7 @@ def resolve_real(supvisors, path, qapp, qproc, plain):
         return ('ok', prog, app)
     finally:
         supvisors.options.rules_files = saved
+        sparser_mod.stderr = saved_err
 
 
 # ---------------------------------------------------------------------------------------------------------------
